@@ -29,7 +29,10 @@ CONSTANTS
     ConsOps,    \* sequence of consumer ops [op |-> "pop" | "release" | "close" | "len"]
     Sequential, \* TRUE: operations do not overlap (used to enumerate operation sequences)
     FreeOps,    \* TRUE: instead of following ProdOps / ConsOps every thread picks any operation of its alphabet
-    MaxOps      \* bound on the number of operations when FreeOps
+    MaxOps,     \* bound on the number of operations when FreeOps
+    Nested      \* with Sequential: one push may be suspended between the reservation of its cell and its
+                \* publication while other operations run to completion (the in-flight window, reproduced on the
+                \* real queue by running those operations from inside the push's message closure)
 
 RECURSIVE NPow2From(_, _)
 NPow2From(n, p) == IF p >= n THEN p ELSE NPow2From(n, 2 * p)
@@ -69,7 +72,7 @@ NoBorrow == [idx |-> -1, stamp |-> 0]
 NoVal == <<"", 0>>
 Vacated == [k |-> "vacated", v |-> NoVal, ok |-> TRUE]
 Taken   == [k |-> "none", v |-> NoVal, ok |-> TRUE]
-NoLoc == [e |-> 0, st |-> 0, v |-> 0, d |-> 0, quiet |-> FALSE, snap |-> {}, sawClosed |-> FALSE]
+NoLoc == [e |-> 0, st |-> 0, v |-> 0, d |-> 0, quiet |-> FALSE, snap |-> {}, sawClosed |-> FALSE, inn |-> ""]
 
 Ops(t) == IF t = "cons" THEN ConsOps ELSE ProdOps[t]
 HasOp(t) == IF FreeOps THEN MaxOps = 0 \/ Len(hist) + Cardinality({u \in Threads : pc[u] # "idle"}) < MaxOps
@@ -96,7 +99,8 @@ Value(p) == <<p, nextVal[p]>>
 Accepted == UNION {{pushedOk[p][i] : i \in 1..Len(pushedOk[p])} : p \in Producers}
 
 Done(t, op, arg, ret) ==
-    /\ hist' = IF Sequential THEN Append(hist, [t |-> t, op |-> op, arg |-> arg, ret |-> ret]) ELSE hist
+    /\ hist' = IF Sequential THEN Append(hist, [t |-> t, op |-> op, arg |-> arg, ret |-> ret, inn |-> loc[t].inn])
+               ELSE hist
     /\ pc' = [pc EXCEPT ![t] = "idle"]
     /\ opi' = [opi EXCEPT ![t] = @ + 1]
     /\ closedDone' = (closedDone \/ op = "close")
@@ -116,7 +120,12 @@ Done(t, op, arg, ret) ==
                     /\ ~(Flag(enq) /\ Accepted \subseteq {popped[i] : i \in 1..Len(popped)})
                  THEN {"ClosedWhenDrained"} ELSE {})
 
-NoOverlap(t) == Sequential => \A u \in Threads \ {t} : pc[u] = "idle"
+Suspended == {u \in Threads : pc[u] = "p_write" /\ loc[u].inn = ""}
+NoOverlap(t) ==
+    Sequential =>
+        \/ \A u \in Threads \ {t} : pc[u] = "idle"
+        \/ /\ Nested /\ Cardinality(Suspended) = 1
+           /\ \A u \in Threads \ {t} : pc[u] = "idle" \/ u \in Suspended
 
 (* An operation starts. *)
 Start(t) ==
@@ -130,7 +139,9 @@ Start(t) ==
                                 ELSE IF o = "close" THEN "x_close"
                                 ELSE "l_load_enq"]
     /\ loc' = [loc EXCEPT ![t] = [NoLoc EXCEPT !.v = IF t = "cons" THEN 0 ELSE nextVal[t], !.quiet = \A p \in Producers : pc[p] = "idle",
-                                               !.snap = Accepted, !.sawClosed = closedDone]]
+                                               !.snap = Accepted, !.sawClosed = closedDone,
+                                               !.inn = IF Suspended = {} THEN ""
+                                                       ELSE CHOOSE u \in Suspended : TRUE]]
     /\ UNCHANGED <<enq, deq, stamp, cell, opi, inCell, borrow, hist, bad, closedDone, pushedOk, popped, nextVal, lastRet>>
 
 -----------------------------------------------------------------------------
@@ -179,6 +190,8 @@ PCmp(p) ==
 (* the message is written into the cell (non-atomic) *)
 PWrite(p) ==
     /\ pc[p] = "p_write"
+    \* a suspended push resumes once the operations nested in it are over
+    /\ (Sequential /\ loc[p].inn = "") => \A u \in Threads \ {p} : pc[u] = "idle"
     /\ cell' = [cell EXCEPT ![Idx(loc[p].e)] = [k |-> "msg", v |-> Value(p), ok |-> (@.k = "vacated")]]
     /\ inCell' = [inCell EXCEPT ![Idx(loc[p].e)] = @ \ {p}]
     /\ pc' = [pc EXCEPT ![p] = "p_stamp"]
